@@ -2,6 +2,7 @@ package sym
 
 import (
 	"fmt"
+	"strings"
 	"go/types"
 
 	"golang.org/x/tools/go/ssa"
@@ -34,6 +35,7 @@ type Obj struct {
 	Epoch     int
 	Name      string
 	Protected string // non-empty: stores are violations (reason label)
+	Exempt    bool   // owned by the models / runtime: not subject to FreezeAll
 	Site      string
 	V         Value   // for Alloc'ed cells
 	Arr       []Value // for MakeSlice backing arrays
@@ -288,7 +290,18 @@ func copyVal(v Value) Value {
 // newObj allocates a tracked object.
 func (e *Engine) newObj(name string) *Obj {
 	e.objSeq++
-	return &Obj{ID: e.objSeq, Epoch: e.epoch, Name: name}
+	o := &Obj{ID: e.objSeq, Epoch: e.epoch, Name: name}
+	// memory owned by the environment models / the harness runtime is not subject to FreezeAll
+	if n := len(e.stack); n > 0 {
+		if fn := e.stack[n-1].fn; fn != nil && fn.Pkg != nil && isModelPkg(fn.Pkg.Pkg.Path()) {
+			o.Exempt = true
+		}
+	}
+	return o
+}
+
+func isModelPkg(path string) bool {
+	return strings.HasSuffix(path, "/internal/verifmodels") || strings.HasSuffix(path, "/internal/verifrt")
 }
 
 func (e *Engine) allocCell(t types.Type, name string) Ptr {
